@@ -74,7 +74,7 @@ PROPS = {
                  "one A/L position with commodity other than V, is the trace run: |sum of the report inserts on (a,c) - Q x latest price| <= steps x 1e-8, for plain configurations with all days inside the window), "
                  "C03_pipeline_mtm_bound_window (from any start state: the windowed form). Open: days outside the window in the Balance.run form, rendering of inserts into cells (C01/C02 machinery), closed form of "
                  "the step count. On every run Spec.mtm (exact, in Lean: sum over commodities of summed quantity x Prices.normalize price, no truncation) is compared with every A/L cell of the REAL "
-                 "`knut balance -v V --digits 10` report; valued reports are also compared byte for byte with the pipeline model. Known finding: with --from after a position was "
+                 "`knut balance -v V --digits 10` report; valued reports are also compared cell for cell with the pipeline model. Known finding: with --from after a position was "
                  "acquired the report shows the value change inside the window, not the absolute mark-to-market (design behaviour).",
         "note": "Trusted: Lean kernel; axioms propext, Classical.choice, Quot.sound; price normalisation is C12's model (Knut.Model.Prices); text-table parsing of the harness (indentation -> account path).",
         "rule": "journals with price histories (sparse/daily redeclarations, direct, inverse and chained declarations, an eighth with some declarations dropped so that valuation must fail), "
@@ -106,8 +106,8 @@ PROPS = {
                  "C02_closing_partial (the closing pair books -T / +T); Properties/C02Close.lean: C02_close (WITH closing the inserts are a permutation of Spec.ledgerEntries — the accumulators equal the direct sums over "
                  "[previous closing day, s) — for sorted, date-consistent days containing the period starts; the permutation cannot be strengthened to equality, kernel-checked witness), C02_closing_day, C02_close_invariant. "
                  "The hypotheses (sorted days, period starts present and increasing, zero values in unvalued runs) are what Builder.ofList + ensureDays + NewPartition produce; deriving them in Lean is not done. "
-                 "Additionally the monitor report_equals_ledger renders Spec.ledgerEntries and compares it byte for byte with the REAL output of `knut balance` (text and CSV) on every case, "
-                 "in addition to the byte-exact model-vs-code comparison over the full flag space (filters, -m incl. level 0 and suffix, remap, last, diff, close).",
+                 "Additionally the monitor report_equals_ledger renders Spec.ledgerEntries and compares it cell for cell with the REAL output of `knut balance` (text and CSV) on every case, "
+                 "in addition to the cell-exact model-vs-code comparison over the full flag space (filters, -m incl. level 0 and suffix, remap, last, diff, close).",
         "note": "Trusted: Lean kernel; axioms propext, Classical.choice, Quot.sound; regexps restricted to the family the driver implements; rendering (BalanceReport.table, Table) is shared by "
                 "model and specification (its numeric/width properties are C17's subject); cobra flag parsing.",
         "rule": "lifecycle-generated journals (incl. a tenth with one lifecycle mutation, so rejected journals are compared too) x flag vectors over --from/--to/--last/interval/--diff/"
@@ -125,7 +125,7 @@ PROPS = {
                  "partition, closing days, pipeline), C01_create_paired and C01_loader_paired (everything transaction.Create produces, with or without @accrue, is paired), C01_loaded_journal (no hypothesis left for "
                  "journals that come through the loader model). The invariant 'every transaction reaching the Query stage is a list of "
                  "cancelling posting pairs' is proved through valuation (Truncate is odd), adjustments, filtering and closing. Tie: `knut balance` (subprocess, text and CSV, valued and unvalued) "
-                 "compared BYTE FOR BYTE with the model's rendering on generated journals x flag vectors; the Delta rows of the real output are parsed and checked to be zero on every case.",
+                 "compared cell for cell with the model's rendering (text tables reduced to their cell contents incl. row order and indentation; column widths/padding are C17's subject, CSV compared byte for byte) on generated journals x flag vectors; the Delta rows of the real output are parsed and checked to be zero on every case.",
         "note": "Trusted: Lean kernel; axioms propext, Classical.choice, Quot.sound; regexps restricted to the literal/anchored/alternation family the driver implements; cobra flag parsing; "
                 "sequential pipeline semantics (C19 covers the concurrent realisation); @accrue-annotated transactions are generated and expanded by Model/Accrual (C10 proves each expansion is paired).",
         "rule": "journals from the lifecycle generator (2-8 accounts incl. nested ones booked directly, 1-8 days over spans of 0-800 days, several commodities, zero/negative/many-decimal amounts, "
